@@ -15,8 +15,10 @@ case (JSON):
                               suspending, 0 = sleep(0), d>0 = sleep(d ticks);
                               ok 1 = return value (= invocation id), 0 = raise
    'sched': [thread index, ...]   one entry per controller decision
-   'plain': 0|1   also run once with cache=None (default dict) under the same
-                  schedule and compare the observable events
+   'plain': 0|1   also run once with cache=None (the DEFAULT dict, ungated) and compare the observable
+                  events; only meaningful for sched == [] (non-preemptive default: every thread runs
+                  until its loop idles, so the gates of the cache do not change the interleaving)
+   'cache': 'dict' (default: gated dict subclass) | 'map' (gated MutableMapping that is not a dict)
   }
 Caller ids are global, numbered thread by thread in program order.
 
@@ -40,6 +42,8 @@ import os
 import sys
 import threading
 import warnings
+
+from collections.abc import MutableMapping
 
 from . import gate
 from .gate import Ctl, GLock, GDict, GVLoop, TICK, schedule_chooser
@@ -140,6 +144,37 @@ class CDict(dict):
         if R is not None and not R.dead and R.ctl.me() is not None:
             R.ctl.gate(f'set:{R.cid()}')
         dict.__setitem__(self, k, v)
+
+
+class CMap(MutableMapping):
+    """A retaining MutableMapping that is NOT a dict (the property names "the default dict cache and any
+    retaining MutableMapping"): same gates as CDict around an inner dict."""
+
+    def __init__(self):
+        self.d = CDict()
+
+    @property
+    def run(self):
+        return self.d.run
+
+    @run.setter
+    def run(self, R):
+        self.d.run = R
+
+    def __getitem__(self, k):
+        return self.d[k]
+
+    def __setitem__(self, k, v):
+        self.d[k] = v
+
+    def __delitem__(self, k):
+        dict.__delitem__(self.d, k)
+
+    def __iter__(self):
+        return dict.__iter__(self.d)
+
+    def __len__(self):
+        return dict.__len__(self.d)
 
 
 class CLoop(GVLoop):
@@ -334,7 +369,7 @@ def run_once(case, gated_cache=True, wall=30.0, want_choices=False):
         lib.run_coro_ts = rcts
         cache = None
         if gated_cache:
-            cache = CDict()
+            cache = CMap() if case.get('cache') == 'map' else CDict()
             cache.run = R
         fn = _make_fn(R, lib, cache)
         lib.Lock = old_lock
